@@ -5238,8 +5238,18 @@ parse_authority(struct evhttp_uri *uri, char *s, char *eos, unsigned *flags)
 }
 
 static char *
-end_of_authority(char *cp)
+end_of_authority(char *cp, unsigned flags)
 {
+#ifndef _WIN32
+	if (flags & EVHTTP_URI_UNIX_SOCKET) {
+		/* [userinfo@]unix:<socket path>:  The socket path usually holds
+		 * slashes, so the authority ends behind its closing colon. */
+		char *s = cp + strcspn(cp, "@/?#");
+		s = (*s == '@') ? s + 1 : cp;
+		if (!strncmp(s, "unix:", 5) && (s = strchr(s + 5, ':')) != NULL)
+			return s + 1;
+	}
+#endif
 	while (*cp) {
 		if (*cp == '?' || *cp == '#' || *cp == '/')
 			return cp;
@@ -5367,7 +5377,7 @@ evhttp_uri_parse_with_flags(const char *source_uri, unsigned flags)
 		char *authority;
 		readp += 2;
 		authority = readp;
-		path = end_of_authority(readp);
+		path = end_of_authority(readp, flags);
 		if (parse_authority(uri, authority, path, &uri->flags) < 0)
 			goto err;
 		readp = path;
@@ -5459,7 +5469,7 @@ evhttp_uri_parse_authority(char *source_uri, unsigned flags)
 	uri->port = -1;
 	uri->flags = flags;
 
-	end = end_of_authority(source_uri);
+	end = end_of_authority(source_uri, flags);
 	if (parse_authority(uri, source_uri, end, &uri->flags) < 0)
 		goto err;
 
